@@ -205,3 +205,7 @@ TEXT["C07"].update(engine="kani+verus",
           "a reply is handed to the waiter registered under its id and to no other, which is then removed. ONLY these clauses of C07 are decided.",
     note="NOT decided by this family here: exactly-one-reply, behaviour under reordering/duplication/loss, retry/backoff/time-out bounds, SERVFAIL within bounded time (schedules, timers and I/O faults: Kani has no threads, Verus would need its own permission types around tokio). "
          "Seeded change C07-1 (a liveness defect) is accordingly not detected. Defect D07 (id collision panics the connection task) was found here by the no-panic obligation, demonstrated on the real code and fixed.")
+
+TEXT["C12"].update(
+    level=TEXT["C12"]["level"] + " Fixed part (Verus): Dhcp::serialise writes op/htype/hlen/hops, xid, secs, flags, the four addresses, chaddr/sname/file cut or zero padded to 16/64/128 octets and the magic cookie, followed by the option area; lemma_hdr_readback: those 240 octets read back, with the expressions of parse's own contract, to the same field values (chaddr when its length is hlen <= 16).",
+    note=TEXT["C12"]["note"].replace("NOT decided: the fixed 236-octet header part of Dhcp::serialise (serialise_fixed padding/truncation against parse's null_terminated).", "NOT decided: read-back of sname/file (parse cuts them at the first zero octet: a value containing a zero octet does not survive, one without does -- not stated as a lemma)."))
